@@ -87,10 +87,18 @@ Proof. rewrite map_map. reflexivity. Qed.
 Lemma wf_sort : forall t, wf_treeb (sort_tree t) = wf_treeb t.
 Proof.
   induction t as [c m mt|tg mt|m mt ch IH] using tree_ind'; try reflexivity.
-  rewrite sort_tree_dir. simpl.
-  rewrite (names_nodupb_perm _ _ (Permutation_map fst (sort_children_perm (map sortg ch)))), map_fst_sortg.
-  rewrite (forallb_perm _ _ _ (sort_children_perm (map sortg ch))), forallb_map. simpl.
-  f_equal. apply forallb_ext_Forall. exact IH.
+  rewrite sort_tree_dir.
+  change (wf_treeb (Dir m mt (sort_children (map sortg ch))))
+    with (names_nodupb (map fst (sort_children (map sortg ch))) &&
+          forallb name_okb (map fst (sort_children (map sortg ch))) &&
+          forallb (fun nc => wf_treeb (snd nc)) (sort_children (map sortg ch))).
+  change (wf_treeb (Dir m mt ch))
+    with (names_nodupb (map fst ch) && forallb name_okb (map fst ch) && forallb (fun nc => wf_treeb (snd nc)) ch).
+  f_equal; [f_equal|].
+  - now rewrite (names_nodupb_perm _ _ (Permutation_map fst (sort_children_perm (map sortg ch)))), map_fst_sortg.
+  - now rewrite (forallb_perm name_okb _ _ (Permutation_map fst (sort_children_perm (map sortg ch)))), map_fst_sortg.
+  - rewrite (forallb_perm _ _ _ (sort_children_perm (map sortg ch))), forallb_map. simpl.
+    apply forallb_ext_Forall. exact IH.
 Qed.
 
 Lemma modes_sort : forall t, modes_okb (sort_tree t) = modes_okb t.
@@ -113,7 +121,7 @@ Lemma prefixes_clear_ext isl isl' isf isf' : (forall p, isl p = isl' p) -> (fora
   forall rest acc, prefixes_clear isl isf acc rest = prefixes_clear isl' isf' acc rest.
 Proof.
   intros E F. induction rest as [|x rest IH]; intro acc; simpl; [reflexivity|].
-  destruct rest; [reflexivity|]. now rewrite E, F, IH.
+  destruct rest; [reflexivity|]. now rewrite E, IH.
 Qed.
 
 Lemma benign_ext pre isl isl' isf isf' : (forall p, isl p = isl' p) -> (forall p, isf p = isf' p) ->
@@ -160,7 +168,7 @@ Lemma tree_get_sort : forall p t,
 Proof.
   induction p as [|n p IH]; intros t Hwf; [reflexivity|].
   destruct t as [c m mt|tg mt|m mt ch]; try reflexivity.
-  rewrite sort_tree_dir. simpl in *. apply andb_true_iff in Hwf as [Hnd Hwf].
+  rewrite sort_tree_dir. simpl in *. apply andb_true_iff in Hwf as [Hnd Hwf]. apply andb_true_iff in Hnd as [Hnd Hnok].
   rewrite (find_child_perm n _ _ (sort_children_perm (map sortg ch)))
     by (rewrite (names_nodupb_perm _ _ (Permutation_map fst (sort_children_perm (map sortg ch)))), map_fst_sortg;
         exact Hnd).
